@@ -72,6 +72,9 @@ func satExportOne(b *ProgBeh, field, builder string) SatCase {
 	mod, _ := FieldByName(field)
 	bits := bitLen(mod)
 	ins := b.Prog[0]
+	if builder == "r1cs" && usesPlonkAPI(b.Prog) {
+		return SatCase{ID: b.ID, Name: builder + " " + progString(b.Prog), Kind: builder, Skip: "compile: PLONK-specific call, sparse builder only"}
+	}
 	sc := SatCase{ID: b.ID, Name: builder + " " + progString(b.Prog), Kind: builder, Op: ins.Op, N: ins.N}
 	if ins.Op == "ToBinary" && ins.N >= 6 {
 		sc.N = bits
